@@ -273,6 +273,7 @@ def check_C15(run: Run):
     run.evaluations += sum(len(r['steps']) for r in recs)
     by = {r['tid']: r for r in recs}
     nv = 0
+    T.mark_orphans(res['mismatches'])
     for m in res['mismatches']:
         r = by[m['tid']]
         what = f"copy hand {m['tid']} step {m['step']} (copy taken after step {r['copyAt']}) clause {m['clause']} op {m['op']} {m['names']} {m['info'][:1000]}"
